@@ -33,11 +33,11 @@ LEVEL_TEXT = (
 )
 LEVEL_NOTE = "Faults are injected only at the four observer phases, not inside a phase."
 
-CFG = gen.Cfg(onesided=4, servable=3, facilities=True, max_tasks=6, max_time=[40], abs_max=12, chain_components=True, due=True,
+CFG = gen.Cfg(onesided=4, servable=3, facilities=True, max_tasks=6, max_time=[40], abs_max=12, chain_components=True, due=True, dup_names=3,
               work_pool=[0.0, 0.5, 1.0, 1.0, 2.0, 3.0], kinds=[0, 0, 0, 0, 1, 2, 3])
 # nested products only without workplaces here: backward_simulate reverses the dependencies, which turns the
 # assembly form around (parent tasks first) and leads into the nested-placement findings D-PLC2..4 of C13
-CFG_N = CFG.copy(nested="free", max_wps=0)
+CFG_N = CFG.copy(nested="free", max_wps=0, multi_parent=2)
 PH = ["updated", "allocated", "performed", "recorded"]
 
 
